@@ -781,3 +781,57 @@ class ImpedanceReadData(Contract):
     def loops(self):
         l = LoopSpec(inv=lambda cx: [('len', cx.st.len_of(cx.val('rv').name) >= 0)])
         return {'while#0': l}
+
+
+# =========================================================================== ResistiveWall: absolute scale of the prefactor
+class ResistiveWallScale(Contract):
+    """ResistiveWall::__calcImpedance, the statements that compute the frequency-independent prefactor Z1 ("correctly scaled", C16):
+
+        Z1 = (1 - j) * sqrt( Z0 * mu_r * f0 / (sigma * pi * c) ) * L / (2 b),     mu_r = 1 + xi
+
+    (first harmonic of the classical thick-wall impedance (1-j) L/(2 pi b) sqrt(mu0 mu_r omega /(2 sigma)) at omega = 2 pi f0).
+    The law of the samples (ResistiveWallCalc) is stated in terms of this prefactor; here it is tied to the formula, in REAL
+    arithmetic with sqrt as an uninterpreted function constrained by sqrt(x) >= 0 and sqrt(x)^2 == x for the arguments that occur,
+    so that an algebraically equivalent way of writing it (e.g. through the skin depth) verifies as well."""
+    name = 'vfps::ResistiveWall::__calcImpedance'
+    tu = 'src/Z/ResistiveWall.cpp'
+    params = ['n', 'f0', 'f_max', 'L', 's', 'xi', 'b']
+    tags = {'C16'}
+    slice_from = 'mu_r'
+    slice_until = 'delta'
+    replay = lambda self, o, model, pid: z_replay_spec(model)
+
+    def short(self):
+        return 'ResistiveWall::__calcImpedance[scale]'
+
+    def requires(self, cx):
+        # what the factory guards before building this model; xi > -1: at xi == -1 the formula gives a zero impedance
+        return [('guards', And(cx.a('s') > 0, cx.a('xi') >= -1, cx.a('f0') > 0, cx.a('f_max') > 0, cx.a('L') > 0, cx.a('b') > 0))]
+
+    def assigns(self, cx):
+        return [('s', 'ghost.*')]
+
+    def ensures(self, cx):
+        z1 = cx.val('Z1')
+        re, im = z1.fields['re'].t, z1.fields['im'].t
+        PI = models.uf_const('PI')
+        Z0c = z3.RealVal(models.CONST_GLOBALS['vfps::physcons::Z0'])
+        c = z3.RealVal(models.CONST_GLOBALS['vfps::physcons::c'])
+        a = cx.a
+        # axioms for every sqrt application in the term (ideal arithmetic): non-negative, squares to its argument
+        ax = [PI > 3, PI < 4]
+        seen, todo = set(), [re, im]
+        while todo:
+            e = todo.pop()
+            if e.get_id() in seen:
+                continue
+            seen.add(e.get_id())
+            if z3.is_app(e) and e.decl().name() == SQRT(z3.RealVal(1)).decl().name():
+                x = e.arg(0)
+                ax += [Implies(x >= 0, And(e >= 0, e * e == x))]
+            todo.extend(e.children())
+        # Z0 = 1/(epsilon0 c) = 376.7303134... Ohm: the literal the compiler folded and the rational of the model agree to 1e-9
+        lhs = re * re * (a('s') * PI * c) * (4 * a('b') * a('b'))
+        rhs1 = (1 + a('xi')) * a('f0') * a('L') * a('L')
+        law = And(re >= 0, im == -re, lhs >= Z0c * (1 - Rq(1, 10 ** 9)) * rhs1, lhs <= Z0c * (1 + Rq(1, 10 ** 9)) * rhs1)
+        return [('prefactor_is_the_thick_wall_formula', {'C16'}, Implies(And(*ax), law))]
